@@ -2,6 +2,7 @@
 #![recursion_limit = "512"]
 mod common;
 mod dev;
+mod progs;
 mod props;
 mod refsh;
 mod vsh;
@@ -47,6 +48,7 @@ fn main() {
         let v: serde_json::Value = serde_json::from_str(&text).expect("replay file is not JSON");
         let case = &v["case"];
         let code = match id.as_str() {
+            "C02" => props::c02::replay(case),
             "C08" => props::c08::replay(case),
             "C09" => props::c09::replay(case),
             "C12" => props::c12::replay(case),
@@ -61,6 +63,7 @@ fn main() {
         std::process::exit(code);
     }
     let code = match id.as_str() {
+        "C02" => props::c02::run(tier),
         "C08" => props::c08::run(tier),
         "C09" => props::c09::run(tier),
         "C12" => props::c12::run(tier),
